@@ -20,7 +20,10 @@ ASSUME = [
 
 def run_harness(hexe, seed, n, scenario, out):
     args = [hexe, "-seed=%d" % seed, "-n=%d" % n, "-out=" + out]
-    if scenario:
+    if scenario and scenario.startswith("crashenum:"):
+        args += ["-scenario=crashenum", "-enumbase=" + scenario.split(":")[1]]
+        args[2] = "-n=30"
+    elif scenario:
         args.append("-scenario=" + scenario)
     rc, log, dt = L.run(args, timeout=300)
     return rc, log
@@ -53,11 +56,16 @@ def main(prop, prop_v, tier, seed, replay, scenarios, own_prefixes, known_prefix
             for rep in range(3 if tier == "quick" else 6):
                 for sc in kinds:
                     jobs.append((seed * 1000 + k, sc)); k += 1
+            if tier == "thorough" and prop in ("C01", "C02", "C03", "C04"):
+                # systematic crash placement: every crash position of a round x every crash position
+                # of the recovery, for a small tree and one crossing the first tile boundary
+                for base in range(0, 240, 30):
+                    jobs.append((seed * 1000 + 500 + base, "crashenum:%d" % base))
         def work(job):
             s, sc = job
             if s == "replay":
                 return open(replay).read()
-            out = os.path.join(L.BUILD, "hist", "%s_%s_%s.txt" % (prop, s, sc or "mix"))
+            out = os.path.join(L.BUILD, "hist", "%s_%s_%s.txt" % (prop, s, (sc or "mix").replace(":", "_")))
             rc, log = run_harness(hexe, s, per if sc else per * 2, sc, out)
             if rc != 0:
                 return "HARNESSFAIL " + log[-3000:]
